@@ -92,7 +92,8 @@ def required_counters(tier):
         "refuse:crlf-status", "refuse:crlf-name", "refuse:crlf-value",
         "refuse:nonstr-status", "refuse:nonstr-name", "refuse:nonstr-value", "refuse:hop-by-hop",
         "path:initial", "path:exc_info-before-output", "path:exc_info-after-output", "path:late-mutation",
-        "path:swallowed-initial", "path:swallowed-recall", "swallowed:emitted-clean",
+        "path:swallowed-initial", "path:swallowed-recall", "swallowed:emitted-clean", "path:headers-iterator",
+        "path:headers-two-faced", "programs-under-python-O",
         "body:list", "body:generator", "body:write", "body:file_wrapper",
         "version:1.0", "version:1.1", "lines_compared",
     ]
@@ -188,6 +189,21 @@ def make_app(case, log):
         try:
             if path == "initial":
                 return sr(status, list(headers))
+            if path == "headers-iterator":
+                # any iterable of pairs is accepted; a one-shot one can be walked only once
+                return sr(status, iter(list(headers)))
+            if path == "headers-two-faced":
+                # an iterable that yields other (hostile) items when it is walked a second time
+                class TwoFaced(list):
+                    walks = 0
+
+                    def __iter__(self):
+                        TwoFaced.walks += 1
+                        if TwoFaced.walks == 1:
+                            return list.__iter__(self)
+                        return iter([("X-Late-Zq9", "vZq9\r\nInjected-Zq9: 1")])
+
+                return sr(status, TwoFaced(headers))
             if path == "exc_info-before-output":
                 sr(dec(first["status"]), dec_headers(first["headers"]))
                 return sr(status, list(headers), boom_info())
@@ -661,7 +677,7 @@ def run_program(acc, case):
 
     where_of = {"crlf-status": "status", "crlf-name": "name", "crlf-value": "value"}
 
-    if path in ("initial", "exc_info-before-output"):
+    if path in ("initial", "exc_info-before-output", "headers-iterator", "headers-two-faced"):
         acc.count("path:" + path)
         reasons = must_refuse(status, headers)
         unenc = unencodable(status, headers)
@@ -1207,7 +1223,35 @@ def fam_swallowed(tier):
                                  {"fam": "swallowed", "where": "second" if path.endswith("recall") else "initial", "cls": label, "pos": 0})
 
 
+def fam_iterables(tier):
+    """the header collection is any iterable of pairs: one-shot iterators, iterables whose walks differ"""
+    idx = 0
+    progs = [("plain", "200 Qz", [("X-Zq1k", "vZq2wk")]),
+             ("three", "200 Qz", [("A-Zq3", "aZq3"), ("X-Zq1k", "vZq2wk"), ("Content-Length", "@CL")]),
+             ("crlf-value", "200 Qz", [("A-Zq3", "aZq3"), ("X-Zq1k", "vZq2wk\r\nInj-Zq9: 1")]),
+             ("hop", "200 Qz", [("A-Zq3", "aZq3"), ("Connection", "close")])]
+    for label, status, headers in progs:
+        for path in ("headers-iterator", "headers-two-faced"):
+            for body in BODIES:
+                for version in ("1.0", "1.1"):
+                    for expose in (False, True):
+                        idx += 1
+                        yield mk(status, fix_cl(headers, body), path, body, version, expose, idx,
+                                 {"fam": "iterables", "where": path, "cls": label, "pos": 0})
+
+
+def programs_optimized(tier):
+    """what is run a second time under `python -O` (validation must not live in assert statements)"""
+    yield from fam_nonstr(tier)
+    for c in fam_hop(tier):
+        if c["meta"]["fam"] == "hop":
+            yield c
+    yield from fam_swallowed(tier)
+    yield from fam_cl_value(tier)
+
+
 def programs(tier, seed):
+    yield from fam_iterables(tier)
     yield from fam_cl_value(tier)
     yield from fam_swallowed(tier)
     yield from fam_single(tier)
@@ -1225,7 +1269,10 @@ def programs(tier, seed):
 
 def plan(tier, seed):
     parts = 16 if tier == "quick" else 32
-    return [{"tier": tier, "seed": seed, "part": p, "parts": parts} for p in range(parts)]
+    specs = [{"tier": tier, "seed": seed, "part": p, "parts": parts} for p in range(parts)]
+    # the must-refuse families once more in an interpreter started with -O
+    specs += [{"tier": tier, "seed": seed, "part": p, "parts": 4, "optimized": True, "pyflags": ["-O"]} for p in range(4)]
+    return specs
 
 
 def run_shard(spec):
@@ -1233,6 +1280,15 @@ def run_shard(spec):
 
     acc = Acc()
     part, parts = spec["part"], spec["parts"]
+    if spec.get("optimized"):
+        if sys.flags.optimize < 1:
+            acc.inconclusive.append("harness: the -O shard was not started with -O")
+        for case in itertools.islice(programs_optimized(spec["tier"]), part, None, parts):
+            case = dict(case, optimized=True)
+            case["meta"] = dict(case["meta"], where=str(case["meta"].get("where")) + "/-O")
+            run_program(acc, case)
+            acc.count("programs-under-python-O")
+        return acc.out()
     for case in itertools.islice(programs(spec["tier"], spec["seed"]), part, None, parts):
         run_program(acc, case)
     if part == 0:
@@ -1261,6 +1317,19 @@ def finish(agg, tier, coverage):
 
 
 def replay(case):
+    if case.get("optimized") and sys.flags.optimize < 1:
+        # witnessed under `python -O`: replay in such an interpreter
+        import json
+        import subprocess
+
+        code = ("import json,sys; from vf import core; core.use_waitress(); from vf.checks import c08; "
+                "print('@@'+json.dumps(c08.replay(json.loads(sys.stdin.read()))))")
+        p = subprocess.run([sys.executable, "-O", "-c", code], input=json.dumps(case).encode(), stdout=subprocess.PIPE,
+                           cwd=core.ROOT, env=dict(__import__("os").environ, PYTHONHASHSEED="0", PYTHONDONTWRITEBYTECODE="1"))
+        for line in p.stdout.decode().splitlines():
+            if line.startswith("@@"):
+                return json.loads(line[2:])
+        return []
     acc = Acc()
     run_program(acc, case)
     return acc.violations
